@@ -360,7 +360,20 @@ vh::Outcome run_c17(const vh::Case& c, bool concurrent) {
 }
 
 // ================================================================================================ C18 DelayedObjects
+// a value type whose copy / move construction can be made to throw (fault plan, kind F_COPY) while a set/fulfil call is in progress
+struct FaultyVal {
+    int v = 0;
+    FaultyVal() = default;
+    explicit FaultyVal(int x) : v(x) {}
+    FaultyVal(const FaultyVal& o) : v(o.v) { vrt::fault_point(vrt::F_COPY); }
+    FaultyVal(FaultyVal&& o) : v(o.v) { vrt::fault_point(vrt::F_COPY); }
+    FaultyVal& operator=(const FaultyVal&) = default;
+    FaultyVal& operator=(FaultyVal&&) = default;
+    bool operator==(const FaultyVal& o) const { return v == o.v; }
+};
+struct FaultWin { bool prev = false; FaultWin() { if (vrt::rt().cur) { prev = vrt::me().fault_window; vrt::me().fault_window = true; } } ~FaultWin() { if (vrt::rt().cur) vrt::me().fault_window = prev; } };
 template<class X> struct Val;
+template<> struct Val<FaultyVal> { static FaultyVal make(int v) { return FaultyVal(v); } static int id(const FaultyVal& x) { return x.v; } };
 template<> struct Val<int> { static int make(int v) { return v; } static int dflt() { return 0; } static int id(const int& v) { return v; } };
 template<> struct Val<std::string> { static std::string make(int v) { return "value-that-is-long-enough-to-live-on-the-heap-" + std::to_string(v); } static int id(const std::string& s) { return s.empty() ? 0 : std::atoi(s.c_str() + s.rfind('-') + 1); } };
 
@@ -392,7 +405,9 @@ vh::Outcome run_c18(const vh::Case& c, bool concurrent) {
     bool lbl_set_vs_fulfill = false, lbl_destroy_pending = false, lbl_double_set = false, lbl_overlap = false;
     int in_flight = 0, sets_in_flight = 0, fulfills_in_flight = 0;
     int nextv = 1;
+    bool lbl_set_threw = false;
     out.res = vrt::run(c.sched, [&] {
+        vrt::rt().faults_need_window = true;        // faults (if planned) fire only inside set / fulfil calls
         std::map<int, std::future<X>> futs;         // key -> future (requested once, by the owning fiber)
         std::set<int> requested, awaited;
         auto skey = [](int k) { return "key-" + std::to_string(k); };
@@ -421,8 +436,15 @@ vh::Outcome run_c18(const vh::Case& c, bool concurrent) {
                             if (fulfills_in_flight > 0) lbl_set_vs_fulfill = true;
                             sets_in_flight++;
                             X val = Val<X>::make(op.v);
-                            if (op.kind == D_SET) { if (op.key & 1) dobj->setDelayedValue(skey(op.key), val); else dobj->setDelayedValue(op.key, val); }
-                            else { if (op.key & 1) dobj->setDelayedValue(skey(op.key), std::move(val)); else dobj->setDelayedValue(op.key, std::move(val)); }
+                            try {
+                                FaultWin fw;
+                                if (op.kind == D_SET) { if (op.key & 1) dobj->setDelayedValue(skey(op.key), val); else dobj->setDelayedValue(op.key, val); }
+                                else { if (op.key & 1) dobj->setDelayedValue(skey(op.key), std::move(val)); else dobj->setDelayedValue(op.key, std::move(val)); }
+                            } catch (const vrt::InjectedFault&) {
+                                // the value's copy/move threw inside the call: the call has no effect (the key stays pending and is fulfilled later)
+                                skip = true; lbl_set_threw = true;
+                                if (vrt::me().held != 0) vrt::fail("lock-leaked-on-throw", "the container's mutex is still held after setDelayedValue threw");
+                            }
                             sets_in_flight--;
                             break;
                         }
@@ -508,8 +530,10 @@ vh::Outcome run_c18(const vh::Case& c, bool concurrent) {
     if (lbl_destroy_pending) out.labels.push_back("destroyed-with-pending");
     if (lbl_double_set) out.labels.push_back("double-set");
     if (lbl_overlap) out.labels.push_back("calls-overlapped");
+    if (lbl_set_threw) out.labels.push_back("set-threw");
     if (hist.size() > 22 && concurrent) out.labels.push_back("history-too-long-for-search");
     out.nontrivial = concurrent ? (lbl_overlap && (lbl_set_vs_fulfill || lbl_destroy_pending || lbl_double_set)) : (lbl_destroy_pending || lbl_double_set);
+    if (c.sched.fault_k) out.nontrivial = lbl_set_threw;
     return out;
 }
 
@@ -554,6 +578,10 @@ vh::GenSpec s18(bool conc, bool th) {
     return g;
 }
 vh::Outcome d18(const vh::Case& c, bool conc) { return (!c.cfg.empty() && c.cfg[0] % 2) ? run_c18<std::string>(c, conc) : run_c18<int>(c, conc); }
+vh::GenSpec s18f(bool th) { vh::GenSpec g = s18(false, th); g.fault_max = 2; g.fault_mask = vrt::F_COPY; return g; }
+vh::Register r18f("C18f", s18f(false), s18f(true), [](const vh::Case& c) { return run_c18<FaultyVal>(c, false); },
+                  "as C18s with a value type whose copy/move construction throws at the k-th occurrence inside setDelayedValue: the throwing call has no effect, the key stays pending and is still fulfilled "
+                  "by a later set, by fulfillAllPromises or at destruction; queries stay consistent; non-trivial = a set call threw");
 vh::Register r18s("C18s", s18(false, false), s18(false, true), [](const vh::Case& c) { return d18(c, false); },
                   "generated sequential getFuture / setDelayedValue (copy, move) / fulfillAllPromises / finishedWithValue / queries / consume sequences for X in {int, string}, int and string keys, then destruction; "
                   "non-trivial = a key was set twice or the container was destroyed with pending futures");
